@@ -298,6 +298,9 @@ def do_xmlattr(
     """
     items = []
 
+    if not isinstance(d, abc.Mapping):
+        raise TypeError("Can only build attributes from a mapping.")
+
     for key, value in d.items():
         if value is None or isinstance(value, Undefined):
             continue
@@ -381,6 +384,9 @@ def do_dictsort(
             value = ignore_case(value)
 
         return value
+
+    if not isinstance(value, abc.Mapping):
+        raise TypeError("Can only sort the item pairs of a mapping.")
 
     return sorted(value.items(), key=sort_func, reverse=reverse)
 
